@@ -1272,7 +1272,7 @@ pub fn build(rng: &mut Rng, p: &GenParams) -> Vec<u8> {
     let e = Ehdr {
         class64: p.c64,
         be: p.be,
-        e_type: *rng.pick(&[1u16, 2, 3]),
+        e_type: *rng.pick(&[1u16, 2, 3, 3, 2, 4, 0, 0xfe00, 0xffff]),
         e_machine: *rng.pick(&[3u16, 62, 183, 40, 20, 21, 243, 4]),
         e_version: 1,
         e_entry: 0x40_1000,
